@@ -1,7 +1,7 @@
 from .base import *
 
 ID = 'C19'
-THEOREMS = ['C19_activation_keeps_angle', 'C19_relu', 'C19_magnitudes', 'C19_negative_charge', 'C19_otf_phase', 'C19_magnify_intensity']
+THEOREMS = ['C19_activation_keeps_angle', 'C19_relu', 'C19_magnitudes', 'C19_negative_charge', 'C19_otf_phase', 'C19_magnify_intensity', 'C19_tanh_bound', 'C19_range_hyps_inhabited']
 OWNED = {'TRefract', 'TMagnify', 'TInvField', 'TEField', 'TWireB', 'TArea', 'TActivate', 'TPropagate', 'TDisperse'}
 RULE = ('metamorphic pairs: refraction with |sin t_in| <= n (Snell), magnification by m vs 1/m^2, inverse-power fields under r -> s r with s in [1e-3,1e3] and powers 1..3, flipped charge, wire field under r -> s r, '
         'quadrilaterals with corners in all quadrants and blade histories under a common translation / rotation and against the shoelace area, activations on all quadrants, propagation / dispersion magnitudes. '
